@@ -124,7 +124,15 @@ func vHdrLst(hl *HdrLst) string {
 	for t := 1; t <= 13; t++ {
 		firsts = append(firsts, vOptHdr(hl.GetHdr(HdrT(t))))
 	}
-	return fmt.Sprintf("pf=%d N=%d cap=%d hdrs=[%s] first=[%s]", hl.PFlags, hl.N, len(hl.Hdrs),
+	tf := make([]byte, 15)
+	for t := 0; t < 15; t++ {
+		tf[t] = '0'
+		if hl.PFlags.Test(HdrT(t)) {
+			tf[t] = '1'
+		}
+	}
+	return fmt.Sprintf("pf=%d tf=%s any=%s all=%s N=%d cap=%d hdrs=[%s] first=[%s]", hl.PFlags, tf,
+		vb01(hl.PFlags.Any(HdrFrom, HdrTo)), vb01(hl.PFlags.AllSet(HdrFrom, HdrTo, HdrCallID, HdrCSeq)), hl.N, len(hl.Hdrs),
 		strings.Join(stored, " "), strings.Join(firsts, " "))
 }
 func vHdrVals(hv *PHdrVals) string {
